@@ -478,7 +478,7 @@ package crypto
 
 //@ pred jfCore(s) = jfShape(s) && forall(j, 0, s.size, jfInst(s, j)) && jfSep(s) && unchanged(s.jointRunning) && unchanged(s.running) && unchanged(s.dkgCommon) && unchanged(s.fvss) && unchanged(s.size) && unchanged(s.threshold) && unchanged(s.myIndex) && unchanged(s.processor)
 
-//@ func (*JointFeldmanState).NextTimeout mode int props C10 C09
+//@ func (*JointFeldmanState).NextTimeout mode int
 //@ requires jfInv(s)
 //@ assigns everything
 //@ ensures [reject-idle] !old(s.jointRunning) ==> iserr(result, *dkgInvalidStateTransitionError) && nothingAssigned()
@@ -493,7 +493,7 @@ package crypto
 //@ loop 1 invariant [advanced] forall(j, 0, i, s.fvss[j].sharesTimeout && s.fvss[j].complaintsTimeout == old(s.fvss[0].sharesTimeout))
 //@ loop 1 invariant [pending] forall(j, i, s.size, s.fvss[j].sharesTimeout == old(s.fvss[0].sharesTimeout) && s.fvss[j].complaintsTimeout == old(s.fvss[0].complaintsTimeout))
 
-//@ func (*JointFeldmanState).HandleBroadcastMsg mode int props C10 C08 C09
+//@ func (*JointFeldmanState).HandleBroadcastMsg mode int
 //@ requires jfInv(s)
 //@ assigns everything
 //@ ensures [reject-idle] !old(s.jointRunning) ==> iserr(result, *dkgInvalidStateTransitionError) && nothingAssigned()
@@ -505,7 +505,7 @@ package crypto
 //@ loop 1 invariant [core] jfCore(s) && jfLock(s)
 //@ loop 1 invariant [accepting] i > 0 ==> 0 <= orig && orig < s.size
 
-//@ func (*JointFeldmanState).HandlePrivateMsg mode int props C10 C08 C09
+//@ func (*JointFeldmanState).HandlePrivateMsg mode int
 //@ requires jfInv(s)
 //@ assigns everything
 //@ ensures [reject-idle] !old(s.jointRunning) ==> iserr(result, *dkgInvalidStateTransitionError) && nothingAssigned()
